@@ -214,6 +214,9 @@ enum Op {
     /// install / remove the pack's import policy
     Policy,
     Nh { n: u8, up: bool },
+    /// restarting speaker: selection deferral for all families, from before the first route
+    StartDeferral,
+    EndDeferral,
 }
 
 fn op_str(o: &Op) -> String {
@@ -237,6 +240,8 @@ fn op_str(o: &Op) -> String {
         Op::SoftIn { peer } => format!("soft_reset_in({})", p(peer)),
         Op::Policy => "policy_toggle".into(),
         Op::Nh { n, up } => format!("nexthop(N{},{})", n + 1, if *up { "up" } else { "down" }),
+        Op::StartDeferral => "start_deferral".to_string(),
+        Op::EndDeferral => "end_deferral".to_string(),
     }
 }
 
@@ -267,6 +272,8 @@ struct C20Model {
     fresh: bool,
     ops: Vec<Op>,
     max_sessions: usize,
+    /// per-session prefix limit of every peer session (IPv4 unicast)
+    limit: Option<u32>,
 }
 
 struct Sess {
@@ -295,6 +302,10 @@ pub(crate) struct Sys {
     announced: BTreeMap<(u8, u8), u8>,
     /// VPN prefixes ever announced in this history
     vpn_seen: BTreeSet<u8>,
+    deferring: bool,
+    touched: bool,
+    /// the current session's prefix-limit counter per peer
+    limit_ctr: [Arc<std::sync::atomic::AtomicU64>; 2],
 }
 
 // ------------------------------------------------------ reference selection
@@ -670,7 +681,8 @@ impl C20Model {
             }
         }
         let shared = sys.vpn_seen.len() > 1;
-        let keys: BTreeSet<(u32, String)> = accept.keys().chain(sys.fib.keys()).cloned().collect();
+        // while selection is deferred nothing is installed; the FIB is compared again once the deferral has ended
+        let keys: BTreeSet<(u32, String)> = if sys.deferring { BTreeSet::new() } else { accept.keys().chain(sys.fib.keys()).cloned().collect() };
         for k in keys {
             let o = sys.fib.get(&k).filter(|s| !s.is_empty());
             let (sets, nothing_ok) = match accept.get(&k) {
@@ -786,6 +798,9 @@ impl Model for C20Model {
             applies: 0,
             announced: BTreeMap::new(),
             vpn_seen: BTreeSet::new(),
+            deferring: false,
+            touched: false,
+            limit_ctr: [Default::default(), Default::default()],
         }
     }
 
@@ -818,8 +833,18 @@ impl Model for C20Model {
                 } else {
                     let src = self.source_for(sys, *peer, family);
                     let a = if self.fresh { Arc::new(attr_content(*attr)) } else { sys.pool[*attr as usize].clone() };
-                    let exceeded = sys.tm.insert_route(src, family, packet::PathNlri::new(nlri), Some(nh(*n)), a, None, 0);
-                    assert!(!exceeded, "prefix limit without a limit");
+                    let limit = if *peer < 2 && family == Family::IPV4 { self.limit.map(|m| (m, sys.limit_ctr[*peer as usize].clone())) } else { None };
+                    let limited = limit.is_some();
+                    let exceeded = sys.tm.insert_route(src, family, packet::PathNlri::new(nlri), Some(nh(*n)), a, limit, 0);
+                    assert!(limited || !exceeded, "prefix limit without a limit");
+                    if exceeded {
+                        // what the driver does: Cease / maximum-prefixes, the session ends without graceful restart
+                        let i = *peer as usize;
+                        sys.tm.unregister_peer(peer_addr(*peer), &all_fams, &[]);
+                        sys.stale_pending[i] = false;
+                        sys.llgr_pending[i] = false;
+                        sys.up[i] = false;
+                    }
                 }
             }
             Op::Rem { peer, pfx } => {
@@ -866,6 +891,7 @@ impl Model for C20Model {
                 }
                 let s = self.mk_session(*peer);
                 sys.sessions[i].push(s);
+                sys.limit_ctr[i] = Default::default();
                 sys.up[i] = true;
             }
             Op::DropStale { peer } => {
@@ -923,7 +949,22 @@ impl Model for C20Model {
                 }
                 sys.tm.update_nexthop_validity(IpAddr::V4(nh_addr(*n)), *up);
             }
+            Op::StartDeferral => {
+                if sys.touched || sys.deferring {
+                    return false;
+                }
+                sys.tm.start_deferral_families(&all_fams);
+                sys.deferring = true;
+            }
+            Op::EndDeferral => {
+                if !sys.deferring {
+                    return false;
+                }
+                sys.tm.end_deferral_families(&all_fams);
+                sys.deferring = false;
+            }
         }
+        sys.touched = true;
         let mut cur: Vec<(String, String, String)> = Vec::new();
         self.fold_tap(sys, &mut cur, &name);
         self.oracle(sys, &name, &mut cur);
@@ -1002,6 +1043,7 @@ impl Model for C20Model {
             "u{:?}sp{:?}lp{:?}pol{}d{:?}fib{:?}nht{:?}B{:?}an{:?}vs{:?}",
             sys.up, sys.stale_pending, sys.llgr_pending, sys.policy_on, sys.down, sys.fib, sys.nht, sys.broken, sys.announced, sys.vpn_seen
         );
+        let _ = write!(s, "df{}{}lc{:?}", sys.deferring as u8, sys.touched as u8, sys.limit_ctr.iter().map(|c| c.load(std::sync::atomic::Ordering::Relaxed)).collect::<Vec<_>>());
         s.into_bytes()
     }
 
@@ -1073,7 +1115,7 @@ fn packs(thorough: bool) -> Vec<(C20Model, usize)> {
     let mut out: Vec<(C20Model, usize)> = Vec::new();
     let mut mk = |name: &str, shards: usize, vrfs: &Vec<(u32, Vec<[u8; 8]>)>, b_role, pol, fresh: bool, ops: Vec<Op>, depth: usize| {
         out.push((
-            C20Model { name: format!("c20-{name}-s{shards}"), shards, vrfs: vrfs.clone(), b_role, pol, fresh, ops, max_sessions: 3 },
+            C20Model { name: format!("c20-{name}-s{shards}"), shards, vrfs: vrfs.clone(), b_role, pol, fresh, ops, max_sessions: 3, limit: if name.starts_with("limit") { Some(1) } else { None } },
             depth,
         ));
     };
@@ -1112,6 +1154,38 @@ fn packs(thorough: bool) -> Vec<(C20Model, usize)> {
                 nhv(0, false), nhv(0, true),
             ],
             d,
+        );
+        // restarting speaker: routes and reachability reports arrive while selection is deferred
+        mk(
+            "restart",
+            sh,
+            &none,
+            Ebgp,
+            Pol::RejectN1,
+            false,
+            vec![
+                Op::StartDeferral, Op::EndDeferral,
+                ins(A, P1, X, 0), ins(B, P1, X, 1), ins(A, Q1, X, 0),
+                rem(A, P1),
+                nhv(0, false), nhv(0, true), nhv(1, false),
+            ],
+            d + 1,
+        );
+        // a per-session prefix limit of 1 that trips (the session then ends without graceful restart)
+        mk(
+            "limit1",
+            sh,
+            &none,
+            Ebgp,
+            Pol::RejectN1,
+            false,
+            vec![
+                ins(A, P1, X, 0), ins(A, Q1, X, 1), ins(A, P1, Y, 1), ins(B, P1, X, 1),
+                rem(A, P1), rem(A, Q1),
+                Op::Down { peer: A, stale: true }, Op::Up { peer: A }, Op::DropStale { peer: A },
+                nhv(1, false), nhv(1, true),
+            ],
+            d + 1,
         );
         // eBGP vs iBGP vs local vs kernel source, import policy that rejects next hop N1, soft reset
         mk(
